@@ -663,6 +663,32 @@ func (c *CheckCtx) docsEntryPoints(cases []*docCase, prop string) error {
 		scs = append(scs, sc)
 		c.nontrivial(sc.Note)
 	}
+	// YAML streams and callbacks that edit in place: every document of a stream is covered by a path;
+	// a Custom callback that changes the received map and hands it back has changed the value
+	for i, hc := range []struct {
+		api, doc string
+		ms       []*Matcher
+		text     string
+		docjson  string
+	}{
+		{"yaml", "ts: 1\nid: a\n---\nts: 2\nid: b\n", []*Matcher{{M: "any", Paths: []string{"$.ts"}}}, "ts: <Any value>\nid: a\n---\nts: <Any value>\nid: b\n", ""},
+		{"yaml", "ts: 1\nid: a\n---\nid: b\nts: 2\n---\nts: 3\n", []*Matcher{{M: "any", Paths: []string{"$.ts"}}}, "ts: <Any value>\nid: a\n---\nid: b\nts: <Any value>\n---\nts: <Any value>\n", ""},
+		{"json", `{"user":{"name":"n","secret":"s3cr3t"},"b":1}`, []*Matcher{{M: "custom", Paths: []string{"user"}, Ret: json.RawMessage(`"@mask:secret"`)}}, "", `{"user":{"name":"n","secret":"***"},"b":1}`},
+		{"sjson", `{"user":{"name":"n","secret":"s3cr3t"},"b":1}`, []*Matcher{{M: "custom", Paths: []string{"user"}, Ret: json.RawMessage(`"@mask:secret"`)}}, "", `{"user":{"name":"n","secret":"***"},"b":1}`},
+		{"yaml", "user:\n  name: n\n  secret: s3cr3t\nb: 1\n", []*Matcher{{M: "custom", Paths: []string{"$.user"}, Ret: json.RawMessage(`"@mask:secret"`)}}, "user:\n  name: \"n\"\n  secret: \"***\"\nb: 1\n", ""},
+	} {
+		sc := &Scenario{ID: fmt.Sprintf("st%d", i), Configs: stdConfigs(), Program: []string{"TestA"}, Tags: []string{"also:C15", "also:C16"}}
+		x := &Expect{VID: fmt.Sprintf("st:%d", i), Inj: true, Doc: hc.docjson}
+		if hc.text != "" {
+			t := hc.text
+			x = &Expect{Text: &t}
+		}
+		sc.Procs = append(sc.Procs, &Proc{Spec: procSpec("default"), Steps: []*Step{{Op: "begin", Name: "TestA"},
+			{Op: "match", Name: "TestA", API: hc.api, Cfg: "c", Val: bytesVal(hc.doc), Matchers: hc.ms, X: x}, {Op: "end", Name: "TestA"}}})
+		sc.Note = fmt.Sprintf("%s on %q with %d matcher(s): stream / in-place callback", hc.api, hc.doc, len(hc.ms))
+		scs = append(scs, sc)
+		c.nontrivial(sc.Note)
+	}
 	// caller-owned []byte documents with CRLF line endings, a byte order mark, tabs: whatever the
 	// library does to bring input into shape, it does to its own copy
 	for i, doc := range []string{"a: 1\r\nb: two\r\nl:\r\n  - x\r\n", "\xef\xbb\xbfa: 1\nb: 2\n", "{\r\n \"a\": 1,\r\n \"b\": [1, 2]\r\n}\r\n", "\xef\xbb\xbf{\"a\":1}"} {
